@@ -337,6 +337,29 @@ PROPS = {
             'Location, Word, Text, HereDoc, Field, XTrace, expansion errors, CString, NulError, ParseIntError are opaque placeholders; EnumSet<T> is a ghost set of flags with assumed contracts for empty / | / into / contains; Mode, the option set (one option) and file status (one bit) are reduced models; Errno::EBADF = 9, EEXIST = 17, ENOENT = 2',
         ],
     },
+    'C18': {
+        'v_units': ['lineread'],
+        'k_units': [],
+        'level': 'other',
+        'explanation': (
+            'Kernel only: the reader through which the shell takes its own input from a descriptor (yash-env/src/input/fd_reader_2.rs '
+            'FdReader2::next_line, the mechanism "byte-at-a-time reader stopping at newline"), against an ASSUMED synchronous model of read(2) '
+            'in which consumed(fd) is everything the system has handed out from the descriptor (what no other reader of the same input will '
+            'see again). Verus proves, for input of every length and however the underlying reads behave: every read asks for exactly one '
+            'byte (the run-time assertion count == 1 cannot fail); what next_line takes from the descriptor is exactly the bytes of the line it '
+            'returns, a run without a newline optionally ended by ONE newline - nothing after the first newline is consumed, on success and on '
+            'a read error alike, so whatever follows the current line stays available to commands reading the same input; a line is returned '
+            'without a newline only at the end of input; no other descriptor is read. Chunking cannot matter at this level because no read '
+            'can return more than the one byte asked for. NOT decided: that the lexer asks for a new line only when its buffer is exhausted '
+            'and the read-eval loop runs each command before the next line is read (async parser / runner code), other readers of the same '
+            'descriptor across processes, the echo/prompt decorators, the text conversion (lossy UTF-8, assumed).'),
+        'trusted_base': ['Verus 0.2026.09.13 + Z3', '/verif/tools/vextract.py'],
+        'assumptions': [
+            'model trait Read (synchronous, &mut self, ghost streams consumed / at_eof per descriptor): read fills a beginning of the buffer, never more than its length, 0 at end of input, nothing on error; await points dropped',
+            'assumed contract of core::slice::from_mut (a one-element slice over the place); String::from_utf8(..).unwrap_or_else(lossy) is a helper with an uninterpreted result (lossy_text)',
+            'Input::next_line of FdReader2 is checked as an inherent method with the same body (impl header replaced); Context and std::io::Error are placeholders',
+        ],
+    },
     'C10': {
         'v_units': ['errexit'],
         'k_units': ['errexit'],
